@@ -105,6 +105,11 @@ pub fn b(rest: &str) -> Result<(u16, usize), &'static str> { operand(1, rest) }
 pub fn c(rest: &str) -> Result<(u16, usize), &'static str> { operand(2, rest) }
 pub fn d(rest: &str) -> Result<(u16, usize), &'static str> { operand(3, rest) }
 
+/// extern rule without a result type: the rule's type is String; the tag travels as its decimal text
+pub fn a_str(rest: &str) -> Result<(String, usize), &'static str> { operand(0, rest).map(|(t, n)| (t.to_string(), n)) }
+/// @check on a @string rule sees only the text: verdict keyed by its length
+pub fn chk_str0(v: &String) -> bool { unsafe { G.t.chk[0][v.len().min(NPOS - 1)] } }
+
 /// user context variants (C14: "when configured, the user context")
 pub struct Ctx { pub token: u32 }
 pub fn a_ctx(rest: &str, ctx: &mut Ctx) -> Result<(u16, usize), &'static str> { unsafe { if ctx.token == 4242 { G.ctx_seen += 1; } } operand(0, rest) }
@@ -169,7 +174,7 @@ impl Obs {
 // except the closure loops).
 // ------------------------------------------------------------------------------------------------
 #[derive(Clone, Copy)]
-pub struct Snap { f: [Fld; NFLD], x: [i32; 6] }
+pub struct Snap { pub f: [Fld; NFLD], pub x: [i32; 6] }
 
 pub struct Cx {
     pub t: Tables,
